@@ -47,12 +47,31 @@ def build(rng):
     return data, w, items, consts
 
 
+def snapshot(d):
+    """names a DEX object reports: per class its name, the names of its fields and methods, and its const-string operands"""
+    out = []
+    for c in d.get_classes():
+        cd = c.get_class_data()
+        fl = (cd.get_static_fields() + cd.get_instance_fields()) if cd else []
+        ml = (cd.get_direct_methods() + cd.get_virtual_methods()) if cd else []
+        consts = []
+        for m in ml:
+            consts += [(m.get_method_idx(), i.get_string()) for i in m.get_instructions() if i.get_op_value() == 0x1A]
+        out.append((c.get_class_idx(), c.get_name(), sorted((f.get_field_idx(), f.get_name()) for f in fl), sorted((m.get_method_idx(), m.get_name()) for m in ml), sorted(consts)))
+    return sorted(out)
+
+
 def shard(ctx, arg):
     idx, count = arg
     from androguard.core import dex
     rng = ctx.rng("c17", idx)
     for k in range(count):
         data, w, items, consts = build(rng)
+        # a bystander: ANOTHER DEX object of the same bytes, parsed before anything is renamed; whatever is renamed in dx, it keeps its names
+        ref = snapshot(dex.DEX(data))     # what an object of these bytes reports when nothing was renamed (the parse itself is C05's / C06's business)
+        bystander = dex.DEX(data) if rng.random() < 0.5 else None
+        if bystander is not None and rng.random() < 0.5:
+            snapshot(bystander)           # half of the bystanders have resolved their names before the renames, half have not
         dx = dex.DEX(data)
         if rng.random() < 0.3:
             # interaction with another feature: the python export (Session(export_ipython=True) does this) keeps per-class attributes that the
@@ -129,6 +148,9 @@ def shard(ctx, arg):
                 else:
                     # any legal member name: javac's synthetic names carry '$', constructors-like names '<' '>', R8 names '-'
                     new = rng.choice(["renamed%d", "renamed%d", "renamed%d", "this$%d", "$VALUES%d", "val$x%d", "<r%d>", "re-named%d", "\u00e9t\u00e9%d"]) % counter
+                    if rng.random() < 0.06:
+                        new = ""   # not a name a DEX file may contain, but set_name takes any string: the item then reports the empty name
+                        ctx.count("renames_to_the_empty_string")
                     used_new[it["kind"]].append(new)
                 history.append(("set_name", it["kind"], it["key"], new))
                 try:
@@ -205,6 +227,18 @@ def shard(ctx, arg):
                         failed = True
             if failed:
                 break
+        if not failed and any(h[0] == "set_name" for h in history):
+            late = dex.DEX(data)           # and a DEX object of the same bytes parsed after the renames
+            for label, other in (("parsed-before-the-renames", bystander), ("parsed-after-the-renames", late)):
+                if other is None:
+                    continue
+                ctx.ev()
+                ctx.count("bystander_dex_objects_compared")
+                got = snapshot(other)
+                if got != ref:
+                    diff = [(x, y) for x, y in zip(got, ref) if x != y][:3]
+                    ctx.violation("rename-changes-another-dex-object-" + label, "after renames in one DEX object another DEX object of the same bytes reports other names",
+                                  {"history": history, "differences_got_want": diff})
         names = [it["orig"] for it in items]
         ctx.sig(min(nsteps, 8), len(items), len(names) != len(set(names)), sum(1 for h in history if h[0] == "set_name"), any(h[0] == "reload" for h in history))
         if idx == 0 and k < 3:
@@ -218,6 +252,7 @@ def run(ctx):
     ctx.assumptions = ["a class rename may legitimately change descriptors that mention the class; only names are compared"]
     n = 1600 if ctx.quick else 500000
     ctx.run_shards(MOD, "shard", [[i, n // 16] for i in range(16)], timeout=3000)
+    ctx.require_counter("bystander_dex_objects_compared", 200)
     ctx.require_counter("history_steps", 500)
     ctx.require_counter("names_compared", 2000)
     ctx.min_distinct = 10
